@@ -10,6 +10,7 @@ import numpy as np
 
 from . import qc
 from .common import b2f, bits, f2b, unbits
+from .layouts import LAYOUTS, make_batch, outside_untouched
 from .qc import torch
 
 from qucumber.observables import (NeighbourInteraction, ObservableBase, SigmaX, SigmaY, SigmaZ, SWAP)  # noqa: E402
@@ -30,7 +31,10 @@ RULE = ("case = (leaf observables, batch of samples [+ state], expression tree);
         "leaves, integer-valued scalars, model run over Int, exact comparison; real tier: SigmaX/Y/Z, "
         "NeighbourInteraction, SWAP on random Positive/Complex/Density states, model run over Float. "
         "non-trivial iff >= 3 operator nodes, a subtraction or negation, and a scalar operand; distinct by hash of "
-        "(leaves, expression)")
+        "(leaves, expression). history cases: one composite object built from a valid expression and used along a sequence (sample "
+        "tensor overwritten in place, state re-parametrised in place, other batch length, other chain lengths, "
+        "statistics_from_samples, statistics() for (num_samples, num_chains) incl. non-divisible / 0 / 1 / > num_samples with fresh or "
+        "user chains (float64/float32, overwrite on/off) and nn_state.sample wrapped on the instance, apply again)")
 
 OPS2 = ("add", "sub", "mul")
 
@@ -358,7 +362,7 @@ def gen_case(rng, mode, stream, depth):
         expr = gen_wild(rng, mode, depth, len(leaves))
     return {"mode": mode, "stream": stream, "n": n, "leaves": leaves, "expr": expr,
             "samples": [[rng.randrange(2) for _ in range(n)] for _ in range(B)],
-            "state": gen_state(rng, n) if mode == "real" else None}
+            "state": gen_state(rng, n) if mode == "real" else None, "layout": rng.choice(LAYOUTS)}
 
 
 # ---------------------------------------------------------------- one case
@@ -402,9 +406,16 @@ def one_case(ctx, case):
     if impl_err != exp_err:
         return  # already a violation; nothing sensible to evaluate further
     if isinstance(obj, ObservableBase):
+        lay = case.get("layout", "contig")   # the batch handed to the composite: contiguous / strided view of a larger buffer / transposed
+        ctx.count(f"layout={lay}")
         try:
-            impl_apply = obj.apply(st, samples.clone()).detach().numpy().astype(np.float64)
-            impl_stats = obj.statistics_from_samples(st, samples.clone())
+            t1, back1 = make_batch(case["samples"], case["n"], lay)
+            impl_apply = obj.apply(st, t1).detach().numpy().astype(np.float64)
+            t2, back2 = make_batch(case["samples"], case["n"], lay)
+            impl_stats = obj.statistics_from_samples(st, t2)
+            ctx.oracle("apply / statistics_from_samples leave the batch (and the rest of its buffer) unchanged",
+                       bool(torch.equal(t1, samples)) and bool(torch.equal(t2, samples)) and outside_untouched(back1, lay)
+                       and outside_untouched(back2, lay), case, sig=f"{sig}/no-mutation")
         except Exception as e:  # noqa: BLE001
             ctx.oracle("apply / statistics_from_samples of a built composite do not raise", False, case,
                        detail={"raised": type(e).__name__, "msg": str(e)[:200]}, sig=f"{sig}/apply-raised", theorem=THEOREMS["apply"])
@@ -524,10 +535,208 @@ def gen_cases(ctx, scale):
         yield gen_case(rng, "real", "fault", rng.randrange(1, 5))
 
 
+# ---------------------------------------------------------------- call history on the same objects + statistics() of composites
+STAT_PAIRS = [(10, 4), (7, 3), (5, 2), (9, 4), (6, 3), (4, 1), (3, 1), (5, 0), (3, 7), (2, 2), (1, 1), (8, 5), (1, 0), (6, 4)]
+
+
+def rand_like(rng, s):
+    """new parameters for the same architecture"""
+    n, h, scale = s["n"], s["h"], rng.choice([0.1, 0.5, 1.0])
+    if s["kind"] == "pos":
+        return {**s, "am": qc.rand_rbm_params(rng, n, h, scale)}
+    if s["kind"] == "cplx":
+        return {**s, "am": qc.rand_rbm_params(rng, n, h, scale), "ph": qc.rand_rbm_params(rng, n, h, scale)}
+    return {**s, "am": qc.rand_prbm_params(rng, n, h, s["a"], scale), "ph": qc.rand_prbm_params(rng, n, h, s["a"], scale)}
+
+
+def reparam_in_place(st, s):
+    if s["kind"] == "dens":
+        qc.set_prbm(st.rbm_am, s["am"], inplace=True); qc.set_prbm(st.rbm_ph, s["ph"], inplace=True)
+    else:
+        qc.set_rbm(st.rbm_am, s["am"], inplace=True)
+        if s["kind"] == "cplx":
+            qc.set_rbm(st.rbm_ph, s["ph"], inplace=True)
+
+
+def gen_history(rng, mode, depth):
+    """a valid expression + the sequence of evaluations made with the one composite object built from it"""
+    c = gen_case(rng, mode, "valid", depth)
+    n, B = c["n"], len(c["samples"])
+    if c["state"] is None:   # mock leaves ignore the state, but statistics() needs a sampler
+        c["state"] = {"kind": "pos", "n": n, "h": 2, "am": qc.rand_rbm_params(rng, n, 2, 0.5)}
+    mk = lambda m, k: [[rng.randrange(2) for _ in range(m)] for _ in range(k)]  # noqa: E731
+    c["hist"] = True
+    c["state2"] = rand_like(rng, c["state"])
+    c["samples2"] = mk(n, B)
+    c["samples3"] = mk(n, rng.choice([b for b in (1, 2, 3, 5, 7) if b != B]))
+    # chains of other lengths (real leaves only: a mock leaf's weight vector has a fixed length)
+    c["others"] = []
+    if mode == "real":
+        need = max([max(sp["A"]) + 2 for sp in c["leaves"] if sp["type"] == "SWAP"] + [1])
+        for m in (n + 1, n + 2, n - 1):
+            if m >= need and m >= 1 and rng.random() < 0.8:
+                c["others"].append({"state": gen_state(rng, m), "samples": mk(m, rng.choice([1, 2, 4]))})
+    stats = []
+    for (ns, nc) in rng.sample(STAT_PAIRS, 3) + [(rng.randrange(1, 10), rng.randrange(0, 11))]:
+        user = rng.choice([None, None, "f64", "f32"])
+        stats.append({"ns": ns, "nc": nc, "burn_in": rng.randrange(0, 3), "steps": rng.randrange(0, 3), "seed": rng.randrange(1 << 30),
+                      "user": user, "rows": None if user is None else mk(n, rng.randrange(1, 4)), "overwrite": rng.random() < 0.5})
+    c["stats"] = stats
+    return c
+
+
+def expected_values(ctx, expr, leaf_specs, state_spec, rows):
+    """the composite's per-sample values as the property states them: the expression applied to the values of FRESH leaf
+    observables on a fresh state with the given parameters and a fresh tensor with the given content; through the model when a
+    driver is attached, else through the independent interpreter.  -> (values, scale)"""
+    leaves = [make_leaf(sp, i) for i, sp in enumerate(leaf_specs)]
+    st = make_state(state_spec)
+    n = state_spec["n"]
+    B = len(rows)
+    t = torch.tensor(rows, dtype=torch.double).reshape(B, n)
+    lv = [l.apply(st, t.clone()).detach().numpy().astype(np.float64).copy() for l in leaves]
+    sc = max([1.0] + [interp_abs(expr, [abs(float(v[k])) for v in lv]) for k in range(B)])
+    if ctx.driver is not None:
+        mod = ctx.driver.call("c16.build", carrier="float", expr=to_driver(expr, "float"), vals=[bits(v) for v in lv], batch=B)
+        return (unbits(mod["apply"]) if B else np.zeros(0)), sc
+    return np.array([float(interp(expr, [v[k] for v in lv])) for k in range(B)]), sc
+
+
+def history_case(ctx, case):
+    """ONE composite object (and ONE state object, ONE sample tensor object) used along a sequence of calls:
+    apply; apply after the sample tensor was overwritten in place; apply after the state was re-parametrised in place; a batch of
+    another length; chains of other lengths; statistics_from_samples; statistics() for several (num_samples, num_chains) with
+    nn_state.sample wrapped on the instance (chain states captured at every draw); apply once more.  Every result is compared with
+    the expression over fresh leaves for the CURRENT parameters / content (model of C16) and, for statistics(), with the model of
+    C13 (`c13.statistics`) and the exact one-pass statistics of all drawn values."""
+    from .c13 import exact_stats, record_run, stat_close
+
+    expr, specs, n = case["expr"], case["leaves"], case["n"]
+    leaves = [make_leaf(sp, i) for i, sp in enumerate(specs)]
+    obj = py_build(expr, leaves)
+    if not isinstance(obj, ObservableBase):
+        return
+    sig = f"{case['mode']}/history"
+    ctx.case({"hist": [specs, expr, case["samples"], case["stats"]]}, nontrivial=stats_of(expr)["ops"] >= 2,
+             sample={"mode": case["mode"], "history": True, "expr": expr, "leaves": [sp["type"] for sp in specs],
+                     "stats": [(q["ns"], q["nc"], q["user"]) for q in case["stats"]]})
+    ctx.count("history_case"); ctx.count(f"history:mode={case['mode']}")
+    cur = case["state"]
+    st = make_state(cur)
+    B = len(case["samples"])
+    t = torch.tensor(case["samples"], dtype=torch.double).reshape(B, n)
+    t3 = torch.tensor(case["samples3"], dtype=torch.double).reshape(len(case["samples3"]), n)
+
+    def check_apply(step, state_obj, state_spec, tensor, rows):
+        sub = {**case, "step": step}
+        before = tensor.numpy().tobytes()
+        try:
+            got = obj.apply(state_obj, tensor).detach().numpy().astype(np.float64)
+        except Exception as e:  # noqa: BLE001
+            ctx.oracle("history: apply of a built composite does not raise", False, sub, detail={"raised": type(e).__name__, "msg": str(e)[:200]},
+                       sig=f"{sig}/apply-raised", theorem=THEOREMS["apply"])
+            return
+        want, sc = expected_values(ctx, expr, specs, state_spec, rows)
+        if ctx.driver is not None:
+            ctx.point(f"history[{step}]: apply", "property", got, want, sub, scale=sc, theorem=THEOREMS["apply"], sig=f"{sig}/apply")
+        else:
+            ctx.oracle(f"history[{step}]: apply == expression(current leaf values)",
+                       got.shape == want.shape and bool(np.all(np.abs(got - want) <= 1e-9 * sc)), sub,
+                       detail={"impl": got.tolist(), "expected": want.tolist()}, sig=f"{sig}/apply-oracle", theorem=THEOREMS["apply"])
+        ctx.oracle("history: apply leaves the sample tensor unchanged", tensor.numpy().tobytes() == before, sub, sig=f"{sig}/no-mutation")
+
+    check_apply("first", st, cur, t, case["samples"])
+    t.copy_(torch.tensor(case["samples2"], dtype=torch.double).reshape(B, n))
+    check_apply("samples overwritten in place", st, cur, t, case["samples2"])
+    cur = case["state2"]
+    reparam_in_place(st, cur)
+    check_apply("state re-parametrised in place", st, cur, t, case["samples2"])
+    check_apply("other batch length", st, cur, t3, case["samples3"])
+    for k, o in enumerate(case["others"]):
+        so = make_state(o["state"])
+        to = torch.tensor(o["samples"], dtype=torch.double).reshape(len(o["samples"]), o["state"]["n"])
+        check_apply(f"other chain length #{k} (n={o['state']['n']})", so, o["state"], to, o["samples"])
+    t.copy_(torch.tensor(case["samples"], dtype=torch.double).reshape(B, n))
+    check_apply("back to the first content", st, cur, t, case["samples"])
+
+    # ---- statistics_from_samples on the reused tensor, statistics() with several draws
+    def check_stats(label, d, chunks, sub, T=None, c=None, ns=None, model_args=None):
+        allv = [float(x) for ch in chunks for x in ch]
+        M, V, N = exact_stats(allv)
+        sc = max(1.0, max(abs(x) for x in allv))
+        ok = (d["num_samples"] == N and stat_close(d["mean"], M, sc, 1e-9)
+              and (stat_close(d["variance"], V, sc * sc, 1e-9) if V is not None else math.isnan(d["variance"]))
+              and (stat_close(float(d["std_error"]), math.sqrt(max(float(V), 0.0) / N), sc, 1e-7) if V is not None
+                   else math.isnan(float(d["std_error"]))))
+        if T is not None:
+            ok = ok and N == T * c and N >= ns
+        ctx.oracle(f"{label} == one-pass statistics of expression(current leaf values) over every drawn sample", bool(ok), sub,
+                   detail={"impl": {k: float(x) for k, x in d.items()}, "expected": [float(M), None if V is None else float(V),
+                           None if V is None else math.sqrt(max(float(V), 0.0) / N), N]}, sig=f"{sig}/stats-oracle", theorem=THEOREMS["stats"])
+        if ctx.driver is not None and model_args is not None:
+            m = ctx.driver.call("c13.statistics", chunks=[[bits(ch) for ch in chunks]], **model_args)
+            mres = m["result"][0]
+            if "error" in mres:
+                ctx.point(f"{label}: error kind", "property", None, mres["error"], sub, exact=True, sig=f"{sig}/stats-error", theorem=THEOREMS["stats"])
+                return
+            for key, lvl, mm in (("onepass", "property", m["onepass"][0]), ("stream", "aux", mres["stats"])):
+                if "error" in mm:
+                    ctx.point(f"{label}.{key}", lvl, "ok", mm["error"], sub, exact=True, sig=f"{sig}/{key}")
+                    continue
+                ctx.point(f"{label}.{key}.mean", lvl, [d["mean"]], unbits([mm["mean"]]), sub, scale=sc, theorem=THEOREMS["stats"], sig=f"{sig}/{key}")
+                ctx.point(f"{label}.{key}.variance", lvl, [d["variance"]], unbits([mm["variance"]]), sub, scale=sc * sc, theorem=THEOREMS["stats"],
+                          sig=f"{sig}/{key}")
+                ctx.point(f"{label}.{key}.std_error", lvl, [float(d["std_error"])], unbits([mm["std_error"]]), sub, scale=sc, rtol=1e-5, atol=1e-7,
+                          theorem=THEOREMS["stats"], sig=f"{sig}/{key}")
+                ctx.point(f"{label}.{key}.num_samples", lvl, d["num_samples"], mm["n"], sub, exact=True, theorem=THEOREMS["stats"], sig=f"{sig}/{key}")
+            ctx.point(f"{label}: draws and chains", "property", [T, c], [m["T"], m["c"]], sub, exact=True, sig=f"{sig}/T-c", theorem="C13_count")
+
+    if B >= 1:
+        sub = {**case, "step": "statistics_from_samples"}
+        try:
+            d = obj.statistics_from_samples(st, t)
+            want, _ = expected_values(ctx, expr, specs, cur, case["samples"])
+            check_stats("statistics_from_samples", d, [want.tolist()], sub)
+        except Exception as e:  # noqa: BLE001
+            ctx.oracle("history: statistics_from_samples does not raise", False, sub, detail={"raised": type(e).__name__, "msg": str(e)[:200]},
+                       sig=f"{sig}/stats-raised", theorem=THEOREMS["stats"])
+    for qi, q in enumerate(case["stats"]):
+        sub = {**case, "step": f"statistics #{qi}"}
+        ns, nc = q["ns"], q["nc"]
+        user = None
+        if q["user"] is not None:
+            user = torch.tensor(q["rows"], dtype=torch.double if q["user"] == "f64" else torch.float32).reshape(len(q["rows"]), n)
+        c_exp = len(q["rows"]) if user is not None else (min(nc, ns) if nc != 0 else ns)
+        T_exp = -(-ns // c_exp)
+        torch.manual_seed(q["seed"])
+        r, err, calls = record_run(st, user, lambda u: obj.statistics(st, num_samples=ns, num_chains=nc, burn_in=q["burn_in"], steps=q["steps"],
+                                                                      initial_state=u, overwrite=q["overwrite"]))
+        ctx.count("history:statistics_runs"); ctx.count("history:nondivisible" if ns % c_exp else "history:divisible")
+        if err is not None:
+            ctx.oracle("history: statistics() of a composite does not raise", False, sub, detail={"raised": err}, sig=f"{sig}/stats-raised",
+                       theorem=THEOREMS["stats"])
+            continue
+        ctx.oracle("history: statistics() draws ceil(num_samples / chains) times, each continuing the chains of the previous draw",
+                   len(calls) == T_exp and all(len(cl["ret_copy"]) == c_exp for cl in calls)
+                   and [cl["k"] for cl in calls] == [q["burn_in"]] + [q["steps"]] * (len(calls) - 1)
+                   and all(calls[i + 1]["init"] == calls[i]["ret"] and torch.equal(calls[i + 1]["init_copy"], calls[i]["ret_copy"])
+                           for i in range(len(calls) - 1)), sub,
+                   detail={"T": len(calls), "T_expected": T_exp, "k": [cl["k"] for cl in calls], "inits": [cl["init"] for cl in calls],
+                           "rets": [cl["ret"] for cl in calls]}, sig=f"{sig}/draws", theorem="C13_count, C13_schedule")
+        chunks = [expected_values(ctx, expr, specs, cur, cl["ret_copy"].to(torch.int64).tolist())[0].tolist() for cl in calls]
+        check_stats("statistics", r, chunks, sub, T=len(calls), c=c_exp, ns=ns,
+                    model_args=dict(num_samples=ns, num_chains=nc, burn_in=q["burn_in"], steps=q["steps"], overwrite=q["overwrite"], system=False,
+                                    clone_id=1, user_id=0, init_rows=None if user is None else len(q["rows"]), ret_ids=[cl["ret"] for cl in calls]))
+    check_apply("after statistics()", st, cur, t, case["samples"])
+
+
 def run(ctx):
     ctx.rule = RULE
-    for case in gen_cases(ctx, 1 if ctx.tier == "quick" else 10):
+    scale = 1 if ctx.tier == "quick" else 10
+    for case in gen_cases(ctx, scale):
         one_case(ctx, case)
+    for k in range(10 * scale):
+        history_case(ctx, gen_history(ctx.rng, "real" if k % 2 else "mock", ctx.rng.randrange(1, 5)))
 
 
 def search(ctx):
@@ -536,9 +745,14 @@ def search(ctx):
     try:
         for case in gen_cases(ctx, 10):
             one_case(ctx, case)
+        for k in range(60):
+            history_case(ctx, gen_history(ctx.rng, "real" if k % 2 else "mock", ctx.rng.randrange(1, 5)))
     finally:
         ctx.driver = drv
 
 
 def replay(ctx, case):
+    if case.get("hist"):
+        history_case(ctx, {k: v for k, v in case.items() if k != "step"})
+        return
     one_case(ctx, case)
